@@ -4,7 +4,7 @@ P=$1; shift
 git -C /repo apply "$P" || { echo "patch does not apply"; exit 9; }
 for c in "$@"; do
   echo "=== $c on $(basename $(dirname $P))"
-  /verif/check $c --tier quick 2>&1 | grep -E "^VIOLATION|^KNOWN|^UNDECIDED|^\[|CRASH|ENCODER" | cut -c1-300 | head -12
+  /verif/check $c --tier quick 2>&1 | grep -E "^VIOLATION|^UNDECIDED|^\[|CRASH|ENCODER" | cut -c1-300 | head -12
   echo "exit=$?"
 done
 git -C /repo checkout -- . ; git -C /repo status --short | head -3
